@@ -233,6 +233,41 @@ def run_job(job):
                 if (a | b) != nameset or (a & b):
                     res.viol("`%s` and `%s` on %r are not complementary" % (pos, POS[pos], pat), {"pattern": pat, "names": names})
                 res.sample({"pattern": pat, "op": pos, "matched": sorted(a)[:5], "of": len(names)}, cap=3)
+            if rng.random() < 0.15:
+                # two clauses whose pattern texts differ only in letter case
+                o = rng.choice(["=~", "!=~", "like", "=", "==="])
+                p2 = pat.swapcase()
+                if p2 != pat and "\\" not in pat:
+                    try:
+                        if o in ("=~", "!=~"):
+                            re.compile(pat)
+                            re.compile(p2)
+                        e1, e2 = expected(o, pat, names), expected(o, p2, names)
+                        conn = rng.choice(["or", "and"])
+                        cond = "name %s %s %s name %s %s" % (o, lit, conn, o, model.quote_lit(p2))
+                        q, r = run_query(res, w, home, cond, trace=True)
+                        ctx = {"query": q, "names": names, "result": r.brief()}
+                        if r.verdict == "ok" and r.rc == 0 and not r.err:
+                            got = set(r.rows())
+                            exp = (e1 | e2) if conn == "or" else (e1 & e2)
+                            if got != exp:
+                                sig = None
+                                if o == "like" and "?" in pat:
+                                    q1 = expected(o, pat, names, "like_qmark_is_optional_any")
+                                    q2 = expected(o, p2, names, "like_qmark_is_optional_any")
+                                    if got == ((q1 | q2) if conn == "or" else (q1 & q2)):
+                                        sig = "like_qmark_is_optional_any"
+                                ctx["wrongly_returned"] = sorted(got - exp)[:6]
+                                ctx["wrongly_omitted"] = sorted(exp - got)[:6]
+                                res.viol("`%s`: two clauses differing only in letter case disagree with the textbook result (+%d/-%d)" % (
+                                    cond, len(got - exp), len(exp - got)), ctx, sig=sig)
+                            else:
+                                res.cover("case_pair_kinds", o)
+                            monitor_rx(res, r, ctx)
+                        elif r.verdict == "ok" and not (r.rc == 2 and b"regex" in r.err):
+                            res.viol("`%s`: status %s stderr %r" % (cond, r.rc, r.err[:150]), ctx)
+                    except (re.error, ValueError):
+                        pass
             if pair:
                 # two operator kinds with the same pattern text in one query (shared regex cache)
                 o1, o2 = rng.sample(["=", "like", "=~", "!=", "notlike", "!=~"], 2)
